@@ -1,6 +1,7 @@
 package engines
 
 import (
+	"encoding/json"
 	"fmt"
 	"syscall"
 	"sort"
@@ -644,6 +645,11 @@ func diffFiles(before, after map[string]string, liveReq map[string]bool) []strin
 		if (ok && a == b) || isLive(p) {
 			continue
 		}
+		if !ok && sameRunInTwin(p, b, after) {
+			// the left-over original of a compaction that a crash interrupted was removed: the run's record
+			// is where it was, in the compacted twin, with the same latest status
+			continue
+		}
 		out = append(out, p)
 	}
 	for p, a := range after {
@@ -653,6 +659,25 @@ func diffFiles(before, after map[string]string, liveReq map[string]bool) []strin
 	}
 	sort.Strings(out)
 	return out
+}
+
+// sameRunInTwin: p (content b) is the original record file of a run whose compacted twin exists afterwards
+// and shows the same latest status.
+func sameRunInTwin(p, b string, after map[string]string) bool {
+	if !strings.HasSuffix(p, ".dat") || strings.HasSuffix(p, "_c.dat") {
+		return false
+	}
+	twin, ok := after[strings.TrimSuffix(p, ".dat")+"_c.dat"]
+	if !ok {
+		return false
+	}
+	x, y := lastStatusOf(b), lastStatusOf(twin)
+	if x == nil || y == nil {
+		return false
+	}
+	xj, err1 := json.Marshal(x)
+	yj, err2 := json.Marshal(y)
+	return err1 == nil && err2 == nil && string(xj) == string(yj)
 }
 
 func lastStatusOf(content string) *model.Status {
